@@ -2,6 +2,7 @@
 with every field symbolic.  FIELDS is the field inventory (sorts) of the per-connection and
 configuration state; C17's scan checks that every attribute assigned anywhere in the package
 appears here."""
+import z3
 from z3 import And, Or, Not, Implies, IntVal, BoolVal, RealVal
 
 from lomond.websocket import WebSocket
@@ -151,9 +152,22 @@ def install_flag_monitor(ip, W):
     OUTSIDE the lock must preserve I12, at the granularity of single attribute stores"""
     st = ip.st
     st.assume(I12(st, W))
+    base_wire, base_calls = len(st.ghost.get('wire_log', [])), len(st.ghost.get('calls', []))
 
     def hook(st, ref, field):
         if ref.oid == W.state.oid and field in ('closing', 'closed'):
             locked = st.ghost[W.lock.key]['held'] > 0
             st.oblige('C12:store-to-%s-preserves(Close on the wire => closing or closed)' % field, I12(st, W), tags=('C12',))
+        if ref.oid == W.state.oid and field == 'closing':
+            # C14 ("while ... the client has not yet sent a Close frame, every Ping is answered"): the flag that makes the
+            # library drop Pongs is raised only once the Close frame has been written, or its write has at least been
+            # attempted, by this very call - never ahead of it, where another thread's Ping would find it set
+            v = st.get(W.state, 'closing')
+            raised = v is True or (z3.is_expr(v) and z3.is_true(z3.simplify(v)))
+            if raised:
+                sends = [q for q, _a in st.ghost.get('calls', [])[base_calls:]
+                         if q.endswith(('._send_close', 'WebSocket.close', 'WebsocketSession.send', 'WebsocketSession.write'))]
+                attempted = bool(sends) or len(st.ghost.get('wire_log', [])) > base_wire
+                st.oblige('C14:closing-flag-raised-only-after-the-Close-write-was-made-or-attempted(never ahead of it)',
+                          Or(wire_has_close(st), BoolVal(attempted)), tags=('C14', 'C12'))
     st.ghost['write_hook'] = hook
